@@ -16,7 +16,7 @@ from contextlib import contextmanager
 from pathlib import Path
 
 ID = "C07"
-LEVEL_TEXT = ("Theorems for all inputs (32, all closed under the global context). C3 merge: Griffe's deque-based c3linear_merge equals CPython's "
+LEVEL_TEXT = ("Theorems for all inputs (36, all closed under the global context). C3 merge: Griffe's deque-based c3linear_merge equals CPython's "
               "index-vector pmerge on every list of lists (same result, same failures), terminates, satisfies the C3 conditions; empty lists are "
               "neutral; erasing a class that is last wherever it occurs commutes with the merge, failures included (and the hypothesis is needed). "
               "Tables: Class._mro equals CPython's mro_implementation (fast path, duplicate-base check, pmerge) on every table a Python program can "
@@ -32,7 +32,11 @@ LEVEL_TEXT = ("Theorems for all inputs (32, all closed under the global context)
               "assignment is resolved to exactly what it denotes in Python (nested evaluation) through any alias chain; for every list of bases "
               "Griffe's bases are a subsequence of -- and, when all resolve, equal to -- the bases under 'every assigned name denotes its value', "
               "and the loop agrees with that reading unless it stops at a subscripted value; what remains of finding C07-F2 (subscripted value, "
-              "assigned name in the middle of a chain, name bound again later) is refuted by three witnesses. "
+              "assigned name in the middle of a chain, name bound again later) is refuted by three witnesses; and -- proved, no longer only checked -- whatever "
+              "resolved_bases finds, through aliases AND chains of assignments, is what the expression denotes under Python's nested evaluation "
+              "(C07_resolved_base_sound_py, fuel (2+#objects)^2), so Griffe's bases are a subsequence of / equal to Python's bases under that evaluation; "
+              "several hidden classes at once (typing.Generic, abc.ABC) are covered by C07_hidden_all, whose decidable hypothesis the check evaluates with "
+              "the extracted model on every class of every program. "
               "The models are tied to the code by exhaustive hierarchies (N<=5 quick, N<=6 thorough, <=3 ordered bases), random hierarchies with "
               "members across modules, packages generated as source with 8 import styles x subscripts x assignment aliases x Generic[T]/object "
               "bases x holder classes (also derived from each other, with nested classes named like module-level ones) x alias members over module "
@@ -47,15 +51,17 @@ LEVEL_NOTE = ("Trusted: Coq kernel, extraction, the abstractions in this module 
               "base) is what (O) compares with real __mro__. Modelled rather than verified: classes are identified with their paths; alias "
               "resolution is modelled at the level of its outcome (object found / KeyError / cyclic), not of Alias._target caching (C06's subject); "
               "flow-insensitive scopes (each name bound once); no theorem links the heap without externals to the heap with them (checked by (O) "
-              "only); the link between the iterative reading used in the subsequence theorems ('every assigned name denotes its value', followed at the end "
-              "of a chain) and the nested Python evaluation (fin true, also in the middle of a chain) is proved for bases without assignments and CHECKED "
-              "otherwise ((O): the model's Python bases = real __bases__ on every generated program); C07_hidden_last_only is stated for ONE hidden root "
-              "class (object is covered by the elision theorems), several hidden classes at once are checked, not proved. Known findings (classified only "
+              "only); the nested evaluation of the theorems (pyfin: values of assignments evaluated afresh) and the guarded reading used to build the "
+              "CPython-side table (fin true) are compared on every base of every program together with the real __bases__ (they may differ only on cyclic "
+              "programs, which Python cannot run); C07_hidden_all covers any list of hidden root classes hidden one "
+              "after the other (object is covered by the elision theorems; explicit `object` not last stays in the gap predicate); its hypothesis is over "
+              "all classes up to c, so the check falls back to the hierarchy-only Python predicate when an unrelated lower class breaks it (about 2% of "
+              "the classes with external ancestors: `table-gap-only` in the evidence). Known findings (classified only "
               "when the extracted model reproduces both Griffe's and CPython's answer on that input): C07-F1, C07-F2 (narrowed; the plain case is fixed "
               "by 3a123f9 and now a must-pass corpus program).")
 MODEL = ("Model.C07_bases", "run_C07b")          # run_C07b falls through to Model.C07_mro.run_C07 for the table-level requests
 MODEL_TARGETS = ["Model/C07_bases.vo"]
-COQ_TARGETS = ["Proofs/C07_mro.vo", "Proofs/C07_bases.vo", "Proofs/C07_hidden.vo"]
+COQ_TARGETS = ["Proofs/C07_mro.vo", "Proofs/C07_bases.vo", "Proofs/C07_hidden.vo", "Proofs/C07_pyeval.vo"]
 RULE = ("(1) every hierarchy of N<=5 (quick) / N<=6 (thorough) classes where class i takes 0..3 ordered distinct bases among classes 0..i-1 "
         "(depth-first, each new class checked once; classes below a TypeError class are kept as 'cannot exist'); "
         "(2) seeded random ordered tables, 2..8 classes over 1..3 modules (half of the time named m / m_b / m1 / m10 / mod: names extending each other), "
@@ -1124,7 +1130,7 @@ MODPOOL = ["shapes", "shapes_base", "sh", "core", "core2", "m1", "m10", "sub", "
 RELATED = [("shapes_base", "shapes"), ("shapes", "sh"), ("shapes_base", "sh"), ("core2", "core"), ("m10", "m1"), ("subs", "sub"),
            ("sub.mod_x", "sub.mod")]          # (module of the base, module of the subclass): the second name is a string prefix of the first
 XSTYLES2 = ["from", "from-as", "import-dotted", "from-parent-import-mod", "relative", "import-as", "reexport", "wildcard"]
-EXT_PATHS = [["typing", "Generic"]]
+EXT_PATHS = [["typing", "Generic"], ["abc", "ABC"]]       # root classes CPython knows and the collection does not hold
 OBJECT_PATH = ["object"]
 
 
@@ -1172,6 +1178,9 @@ def gen_program(rng, tag, gaps=True):
         if rng.random() < 0.22:
             pos = len(specs) if (not gaps or rng.random() < 0.85) else rng.randrange(len(specs) + 1)
             generic = {"form": rng.choice(["Generic", "Generic", "typing.Generic"]), "pos": pos}
+        abc = None
+        if rng.random() < 0.1:
+            abc = "last" if (not gaps or rng.random() < 0.85) else "random"
         obj = None
         if rng.random() < 0.07:
             obj = "first" if (gaps and specs and rng.random() < 0.2) else "last"
@@ -1180,7 +1189,7 @@ def gen_program(rng, tag, gaps=True):
         if mod_of[i] > 0 and members and rng.random() < 0.12:
             amembers = [rng.choice(members)]
         classes.append({"mod": mod_of[i], "holder": holder, "bases": specs, "generic": generic, "object": obj,
-                        "members": members, "amembers": amembers})
+                        "members": members, "amembers": amembers, "abc": abc})
     if rng.random() < 0.3:
         # a scope puzzle at the end of the last module: a module-level class R, a holder HA with a nested class that is ALSO
         # named R, a holder HB(HA) with a nested class deriving from the bare name R.  Python: the module's R (a class body sees
@@ -1330,6 +1339,7 @@ def render_program(prog):
         raise ValueError(style)
 
     open_holder = {}
+    abc_mods = set()
     holders_done = set()
     for i, c in enumerate(classes):
         j = c["mod"]
@@ -1407,6 +1417,13 @@ def render_program(prog):
                 texts.insert(pos, "typing.Generic[T]")
                 bexprs.insert(pos, ["s", ["a", ["n", "typing"], "Generic"]])
             styles.append("Generic" + ("" if pos == len(texts) - 1 else "/not-last"))
+        if c.get("abc"):
+            # a second class the collection does not hold: `class C(A, Generic[T], ABC)`
+            pos = len(texts) if c["abc"] == "last" else (i * 7 + len(texts)) % (len(texts) + 1)
+            texts.insert(pos, "ABC")
+            bexprs.insert(pos, ["n", "ABC"])
+            abc_mods.add(j)
+            styles.append("ABC" + ("" if pos == len(texts) - 1 else "/not-last"))
         if c.get("object"):
             if c["object"] == "first" and texts:
                 texts.insert(0, "object")
@@ -1479,6 +1496,9 @@ def render_program(prog):
         if "typing" in typing_names[j]:
             head += ["import typing"] + ([] if "Generic" in typing_names[j] else ["T = typing.TypeVar('T')"])
             ents += [[P[j] + ["typing"], ["alias", ["typing"]]]] + ([] if "Generic" in typing_names[j] else [[P[j] + ["T"], ["obj"]]])
+        if j in abc_mods:
+            head += ["from abc import ABC"]
+            ents += [[P[j] + ["ABC"], ["alias", ["abc", "ABC"]]]]
         head += [f"from {'.'.join(P[w])} import *" for w in wild[j]]
         head += imports[j]
         if j == 0 and helper_needed:
@@ -1690,6 +1710,13 @@ def eval_program(ctx, prog, root, mout, inspected=True, stream="program", trees=
             else:
                 f2 = any(b.get("assign") and (b.get("form") or "plain") != "plain" for k in hierarchy_of(pb, c) for b in prog["classes"][k]["bases"])
             f1 = gap_F1(pb, orc, c)
+            if mout is not None and any(x >= n for k in hierarchy_of(pb, c) for x in (pb[k] or [])):
+                # the hypothesis of C07_hidden_all, evaluated by the extracted model: when it holds the theorem says "no gap"
+                applies = bool(mout[c][12]) and not any(o_idx in (pb[k] or [])[:-1] for k in hierarchy_of(pb, c))
+                if record:
+                    ctx.observe("hidden_classes_theorem", "applies" if applies else ("hierarchy-gap" if f1 else "table-gap-only"))
+                if applies:
+                    f1 = False
             if record:
                 ctx.observe("program_gap", ("misresolved-assignment " if f2 else "") + ("external-not-last" if f1 else "") or "none")
             for d in details:
@@ -1853,6 +1880,10 @@ def check_program_row(ctx, case, row, obs, o, paths, n, c, record=True):
         ok = False
         ctx.tie_failure("correspondence", "all_members(model, program) vs Class.all_members / __getitem__", {"model": all_m, "impl": obs["all"]}, case)
     # (O)
+    if row[13] != row[3]:
+        ok = False
+        ctx.tie_failure("oracle", "python bases by the nested evaluation (pyfin, C07_resolved_base_sound_py) vs the guarded reading (fin true)",
+                        {"nested": row[13], "guarded": row[3]}, case)
     o_idx = n + len(EXT_PATHS)
     expect = ["err", "inconsistent"] if o is None else ["ok", [c] + o["mro"] + [o_idx]]
     if row[5] != expect:
@@ -2025,6 +2056,8 @@ def prog_variants(prog, keep):
             yield with_classes([{**x, "generic": None} if ii == i else x for ii, x in enumerate(cl)]), keep
         if c.get("object"):
             yield with_classes([{**x, "object": None} if ii == i else x for ii, x in enumerate(cl)]), keep
+        if c.get("abc"):
+            yield with_classes([{**x, "abc": None} if ii == i else x for ii, x in enumerate(cl)]), keep
         if c.get("shadow") is not None:
             yield with_classes([{**x, "shadow": None} if ii == i else x for ii, x in enumerate(cl)]), keep
         if c.get("hbase") is not None:
